@@ -35,6 +35,12 @@ def configs(tier):
     c["ties2"] = ([("a.wtmp", wt([(5, 0, "A1"), (6, 0, "A2")])), ("b.wtmp", wt([(5, 0, "B1"), (6, 0, "B2")]))], [])
     # text readers (different worker function)
     c["text2"] = ([("a.log", tx([(1, 0, "a1"), (3, 0, "a2")])), ("b.log", tx([(2, 0, "b1"), (3, 0, "b2")]))], [])
+    # the same notation in two files whose pattern sits late in the built-in list (many lazily compiled cells are touched);
+    # only explored in the once-cell mode
+    c["iso2"] = ([("a.log", b"2000-01-01 00:00:01 host app: a1\n2000-01-01 00:00:03 host app: a2\n"),
+                  ("b.log", b"2000-01-01 00:00:02 host app: b1\n2000-01-01 00:00:03 host app: b2\n")], [])
+    c["apache2"] = ([("a.log", b'127.0.0.1 - - [01/Jan/2000:00:00:01 +0000] "GET /a1 HTTP/1.1" 200 12\n127.0.0.1 - - [01/Jan/2000:00:00:03 +0000] "GET /a2 HTTP/1.1" 200 12\n'),
+                     ("b.log", b'127.0.0.1 - - [01/Jan/2000:00:00:02 +0000] "GET /b1 HTTP/1.1" 200 12\n127.0.0.1 - - [01/Jan/2000:00:00:03 +0000] "GET /b2 HTTP/1.1" 200 12\n')], [])
     if tier == "thorough":
         c["ties3"] = ([("a.wtmp", wt([(5, 0, "A1")])), ("b.wtmp", wt([(5, 0, "B1")])), ("c.wtmp", wt([(5, 0, "C1")]))], [])
         c["three"] = ([("a.wtmp", wt([(1, 0, "A1"), (4, 0, "A2")])), ("b.wtmp", wt([(2, 0, "B1"), (4, 0, "B2")])),
@@ -95,7 +101,11 @@ def run(tier, seed, build=True):
             budget = (25000, 40) if tier == "quick" else (400000, 1500)
             dmax = 2 if tier == "quick" else 3
             try:
-                st, viols = sched.explore(cfg, judge, mode="pruned", max_execs=budget[0], max_wall=budget[1])
+                if name in ("iso2", "apache2"):
+                    # channel-level schedules of this configuration equal text2's; here only the once-cell mode matters
+                    st, viols = sched.explore(cfg, judge, mode="dev", max_dev=0, max_execs=10, max_wall=60)
+                else:
+                    st, viols = sched.explore(cfg, judge, mode="pruned", max_execs=budget[0], max_wall=budget[1])
                 # unpruned, deviation-bounded pass (sound whatever the fingerprint hides)
                 st2, viols2 = sched.explore(cfg, judge, mode="dev", max_dev=dmax, max_execs=budget[0], max_wall=budget[1])
             except common.MachineryError as e:
@@ -115,7 +125,7 @@ def run(tier, seed, build=True):
             if not st2.exhausted:
                 res.cap("%s dev<=%d: %s" % (name, dmax, st2.cap))
             # vacuity self-checks
-            if viols or viols2:
+            if viols or viols2 or name in ("iso2", "apache2"):
                 pass
             elif len(st.histories) < 2 and len(files) > 1:
                 raise common.MachineryError("vacuous driver %s: one receive history only" % name)
@@ -130,13 +140,14 @@ def run(tier, seed, build=True):
             # worker-vs-worker shared state: the lazily compiled pattern cells (OnceCell) are global to all workers. With the
             # instrumented once_cell every access to a not-yet-initialised cell is a scheduling point; non-preemptive default
             # policy, all schedules with <= 2 preemptions.
-            if name in ("text2",) or (tier == "thorough" and name == "mixed"):
+            if name in ("text2", "iso2", "apache2") or (tier == "thorough" and name == "mixed"):
                 cfg_o = sched.Config(name + "+once", cfg.workdir, cfg.args, cfg.sources, policy="sticky", once=True)
                 xo = cfg_o.run([])
                 if xo.trace is None or xo.out != expected:
                     raise common.MachineryError("once-mode default schedule of %s is broken: %r" % (name, xo.err[-200:]))
                 try:
-                    st3, viols3 = sched.explore(cfg_o, judge, mode="dev", max_dev=2 if tier == "quick" else 3, max_execs=budget[0], max_wall=budget[1])
+                    od = (1 if name in ("iso2", "apache2") else 2) if tier == "quick" else (2 if name in ("iso2", "apache2") else 3)
+                    st3, viols3 = sched.explore(cfg_o, judge, mode="dev", max_dev=od, max_execs=budget[0], max_wall=budget[1])
                 except common.MachineryError as e:
                     res.machinery.append(str(e))
                     st3, viols3 = None, []
